@@ -114,6 +114,10 @@ pub fn op_dw(t: &str) -> Op {
     Op { req: format!("dw|{}", enc_text(t)), real: textwrap::core::display_width(t).to_string() }
 }
 
+pub fn op_seqsafe(hy: bool, t: &str) -> Op {
+    Op { req: format!("seqsafe|{}|{}", hy as u8, enc_text(t)), real: (crate::oracle::seq_safe(hy, t) as u8).to_string() }
+}
+
 pub fn op_cw(c: char) -> Op {
     Op { req: format!("cw|{}", c as u32), real: textwrap::verif_hooks::ch_width(c).to_string() }
 }
